@@ -26,6 +26,7 @@ type Violation struct {
 
 // RunCtx is what a scenario gets for one simulated run.
 type RunCtx struct {
+	Final []func() // checks to run when the scenario function has returned
 	Prop  string
 	Mode  string // scenario sub-mode
 	Tape  *simrt.Tape
@@ -192,6 +193,9 @@ func execRun(t *testing.T, sc *Scenario, tape *simrt.Tape, seed, run uint64, tie
 					}
 				}()
 				sc.Run(rc)
+				for _, f := range rc.Final {
+					f() // end-of-run checks registered by the scenario (run whatever path it returned by)
+				}
 			}()
 			rc.SimTime = time.Since(start)
 			if sim.Stuck && sim.Deadlock != "" && len(rc.Viol) == 0 && len(sim.Panics) == 0 {
